@@ -44,9 +44,9 @@ ASSUMPTIONS = {
     'C10': ['zero mass means <= 1e-50*total (RDA/IG refit parameters through log(mu+1e-100) by design of Factor.log)'],
 }
 TIERS = {
-    p: {'quick': dict(runs=r, budget_s=240, hashseeds=4, minimise_s=90, grace_s=180),
+    p: {'quick': dict(runs=r, budget_s=480, hashseeds=4, minimise_s=90, grace_s=180),
         'thorough': dict(runs=None, budget_s=600, hashseeds=16, minimise_s=300, grace_s=300)}
-    for p, r in (('C13', 1600), ('C08', 2400), ('C10', 2400))
+    for p, r in (('C13', 1600), ('C08', 4800), ('C10', 4800))
 }
 RUN_LIMIT_S = {'C13': 240, 'C08': 120, 'C10': 120}
 
